@@ -11,7 +11,8 @@
 (***************************************************************************)
 EXTENDS SplineObj, Json, FiniteSets
 
-CONSTANTS Ids, Sizes, Variants, Order, MaxOps, Emit, Broken
+CONSTANTS Ids, Sizes, Variants, Order, MaxOps, Emit, Broken, KindSet, HowSet
+\* KindSet, HowSet narrow the alphabet of queries and construction overloads so that deeper histories stay enumerable
 \* Broken = "none" for the design as it is; the broken twins must be rejected by TLC:
 \*   "noresize"  the cubic factor cache is written only up to the old size when the problem grows
 \*   "readcache" the block adjoint runs over the cache's own size instead of N-1 (reads stale blocks after shrinking)
@@ -49,12 +50,12 @@ DoAssign(dst, src) ==
 
 Init == ObjInit /\ hist = <<>> /\ last = <<>>
 NextPlain ==
-    \/ \E id \in Ids, n \in Sizes, v \in Variants, how \in Hows : DoBuild(id, n, v, how)
-    \/ \E id \in Ids, kind \in Kinds : DoQuery(id, kind)
+    \/ \E id \in Ids, n \in Sizes, v \in Variants, how \in HowSet : DoBuild(id, n, v, how)
+    \/ \E id \in Ids, kind \in KindSet : DoQuery(id, kind)
     \/ \E d \in Ids, s \in Ids : DoCopy(d, s) \/ DoAssign(d, s)
 \* the broken twins patch the state produced by the design's Build
 NextBroken ==
-    \/ \E id \in Ids, n \in Sizes, v \in Variants, how \in Hows :
+    \/ \E id \in Ids, n \in Sizes, v \in Variants, how \in HowSet :
           /\ LET old == IF id \in DOMAIN objs /\ how \in {"upd_durs", "upd_pts"} THEN objs[id]
                         ELSE [data |-> Data(n, v, how), n |-> 0, epoch |-> 0, fac |-> <<>>, sol |-> <<>>, tp |-> <<>>,
                               trajEpoch |-> 0, derivCacheEpoch |-> -1, stale |-> FALSE, last |-> <<>>]
@@ -69,7 +70,7 @@ NextBroken ==
              IN objs' = [i \in (DOMAIN objs) \cup {id} |-> IF i = id THEN new ELSE objs[i]]
           /\ hist' = Append(hist, [op |-> "build", obj |-> id, n |-> n, v |-> v, how |-> how])
           /\ last' = <<"build", id, n, v, how>>
-    \/ \E id \in Ids, kind \in Kinds : DoQuery(id, kind)
+    \/ \E id \in Ids, kind \in KindSet : DoQuery(id, kind)
     \/ \E d \in Ids, s \in Ids : DoCopy(d, s) \/ DoAssign(d, s)
 Next == IF Broken = "none" THEN NextPlain ELSE NextBroken
 Spec == Init /\ [][Next]_vars
